@@ -195,7 +195,7 @@ func c09ThirdPartyClient(c *core.Ctx, k c09Third) {
 	}
 	var sent []byte
 	type unit struct {
-		meta           string
+		meta            string
 		payload, p1, p2 []byte
 	}
 	var units []unit
